@@ -528,6 +528,8 @@ FIXED_PAIR = [
          a=['find', RR2, 1], b=['rel', [[0, 0]]]),
     dict(nodes=plain_nodes(2, 2, 0), ops=[['find', RR2, 1], ['find', RR1, 1]],
          a=['rel', [[0, 0]]], b=['find', RR1, 2]),
+    # find_slots reads __last_failed_rr__ twice while release_slots resets it
+    dict(nodes=plain_nodes(2, 4, 0), ops=[['find', RR2, 1], ['find', RR2, 4]], a=['find', RR1, 1], b=['rel', [[0, 0]]]),
 ]
 PAIR_KS = 120
 
